@@ -431,18 +431,9 @@ func vfBubble(t *testing.T, f func()) (panicMsg string) {
 	var inner string
 	// real-time watchdog, outside the bubble: a bubble whose clock cannot advance (a goroutine waiting for a
 	// sync.Mutex is not durably blocked) would otherwise burn the whole shard budget. Budget hit = inconclusive.
-	stall := time.AfterFunc(time.Duration(vfStallSeconds())*time.Second, func() {
-		buf := make([]byte, 4<<20)
-		k := runtime.Stack(buf, true)
-		var nd []string
-		for _, g := range strings.Split(string(buf[:k]), "\n\n") {
-			if strings.Contains(g, "synctest bubble") && !strings.Contains(strings.SplitN(g, "\n", 2)[0], "durable") {
-				nd = append(nd, g)
-			}
-		}
-		fmt.Fprintf(os.Stderr, "VF-STALL: the bubble made no progress in real time; goroutines not durably blocked:\n%s\n", strings.Join(nd, "\n\n"))
-		os.Exit(4)
-	})
+	stopWatch := make(chan struct{})
+	go vfStallWatch(stopWatch)
+	stall := vfStopper(func() { close(stopWatch) })
 	defer stall.Stop()
 	synctest.Test(t, func(*testing.T) {
 		defer func() {
@@ -487,11 +478,81 @@ func vfInconclusiveKey(r string) string {
 	return k
 }
 
+type vfStopper func()
+
+func (f vfStopper) Stop() { f() }
+
+// vfStallWatch runs outside the bubble, on the real clock. Every 30 s (after vfStallSeconds) it looks for a bubble
+// goroutine that has been waiting for a sync.Mutex / RWMutex for two real minutes or more: inside a bubble such a
+// goroutine is not durably blocked, the virtual clock cannot advance, and nothing in a healthy case holds a lock for
+// minutes of real time. It prints the goroutines and, when the waiter sits in library code, a VF-STALL-LOCK line naming
+// the function; then the process exits (4). The driver decides per part whether that is inconclusive or a violation.
+func vfStallWatch(stop <-chan struct{}) {
+	select {
+	case <-stop:
+		return
+	case <-time.After(time.Duration(vfStallSeconds()) * time.Second):
+	}
+	for {
+		buf := make([]byte, 8<<20)
+		k := runtime.Stack(buf, true)
+		var stuck []string
+		lockFn := ""
+		for _, g := range strings.Split(string(buf[:k]), "\n\n") {
+			head := strings.SplitN(g, "\n", 2)[0]
+			if !strings.Contains(head, "synctest bubble") || !strings.Contains(head, "minutes") {
+				continue
+			}
+			if !(strings.Contains(head, "[sync.Mutex.Lock") || strings.Contains(head, "[sync.RWMutex.Lock") || strings.Contains(head, "[sync.RWMutex.RLock")) {
+				continue
+			}
+			var mins int
+			if i := strings.Index(head, ", "); i > 0 {
+				fmt.Sscanf(head[i+2:], "%d minutes", &mins)
+			}
+			if mins < 2 {
+				continue
+			}
+			stuck = append(stuck, g)
+			if lockFn == "" {
+				for _, line := range strings.Split(g, "\n") {
+					if i := strings.Index(line, "go-libp2p-pubsub"); i >= 0 && !strings.Contains(line, "/repo/") {
+						fn := line[i:]
+						if j := strings.Index(fn, "."); j >= 0 {
+							fn = fn[j+1:]
+						}
+						if strings.HasPrefix(fn, "vf") || strings.HasPrefix(fn, "c1") || strings.HasPrefix(fn, "c0") || strings.HasPrefix(fn, "c2") || strings.HasPrefix(fn, "(*c") || strings.HasPrefix(fn, "(*vf") {
+							break // the waiter is harness code
+						}
+						if j := strings.LastIndexByte(fn, '('); j > 0 {
+							fn = fn[:j]
+						}
+						lockFn = strings.NewReplacer("(", "", ")", "", "*", "").Replace(fn)
+						break
+					}
+				}
+			}
+		}
+		if len(stuck) > 0 {
+			if lockFn != "" {
+				fmt.Fprintf(os.Stderr, "VF-STALL-LOCK: %s\n", lockFn)
+			}
+			fmt.Fprintf(os.Stderr, "VF-STALL: goroutines of the bubble have been waiting for a lock for minutes of real time; the virtual clock cannot advance:\n%s\n", strings.Join(stuck, "\n\n"))
+			os.Exit(4)
+		}
+		select {
+		case <-stop:
+			return
+		case <-time.After(30 * time.Second):
+		}
+	}
+}
+
 func vfStallSeconds() int {
 	if v, err := strconv.Atoi(os.Getenv("VF_STALL")); err == nil && v > 0 {
 		return v
 	}
-	return 240
+	return 150
 }
 
 // vfBubbleStacks keeps the goroutines of a bubble that are still blocked (first lines of each), so a report
